@@ -185,6 +185,71 @@ def adjacency_programs():
     return progs
 
 
+def history_programs(gd, tier):
+    """Programs in which the text -E prints for a token depends on what was processed before it (string-valued dynamic
+    macros in several files, a string macro used as a computed #include operand and in the text) or on the amount
+    of output produced so far (one very long token after n short ones).  Returns [(name, path of the primary file)]."""
+    out = []
+    def put(d, fn, text):
+        os.makedirs(d, exist_ok=True)
+        with open(os.path.join(d, fn), "w") as f:
+            f.write(text)
+    # (a) every sequence of <= 3 (thorough 4) steps over uses of __FILE__ / __BASE_FILE__ in the primary file and in two headers
+    steps = {"m": "const char *m%d = __FILE__;\n", "b": "const char *b%d = __BASE_FILE__;\n", "h": '#include "h1.h"\n', "k": '#include "sub/h2.h"\n',
+             "f": "const char *f%d(void) { return __FILE__ __FILE__; }\n"}
+    n = 0
+    for L in range(1, (4 if tier == "thorough" else 3) + 1):
+        for seq in itertools.product("mbhkf", repeat=L):
+            if seq.count("h") > 1 or seq.count("k") > 1:
+                continue
+            d = os.path.join(gd, "fa%d" % n)
+            put(d, "h1.h", "static const char *h1a(void) { return __FILE__; }\nstatic const char *h1b(void) { return __BASE_FILE__; }\n")
+            put(os.path.join(d, "sub"), "h2.h", "static const char *h2a(void) { return __FILE__ \"+\" __FILE__; }\n")
+            put(d, "main.c", "".join(steps[c] % i if "%d" in steps[c] else steps[c] for i, c in enumerate(seq)))
+            out.append(("hist\tfile-macros\t%s" % "".join(seq), os.path.join(d, "main.c")))
+            n += 1
+    # (b) a string-valued macro as the operand of #include and in the program text, every order of <= 4 steps
+    st2 = {"D": '#define HDR "inc%d.h"\n', "I": "#include HDR\n", "U": "const char *u%d = HDR;\n", "S": "#define STR(x) #x\n#define XSTR(x) STR(x)\nconst char *s%d = XSTR(HDR);\n",
+           "R": '#undef HDR\n#define HDR "inc%d.h"\n'}
+    for L in range(2, (5 if tier == "thorough" else 4) + 1):
+        for seq in itertools.product("IUSR", repeat=L - 1):
+            if seq.count("S") > 1 or "I" not in seq:
+                continue
+            seq = ("D",) + seq
+            d = os.path.join(gd, "fb%d" % n)
+            for i in range(len(seq)):
+                put(d, "inc%d.h" % i, "int from_inc%d_%d;\n" % (i, n))
+            text = ""
+            for i, c in enumerate(seq):
+                t = st2[c]
+                if c == "S" and i != seq.index("S"):
+                    continue
+                text += (t % i) if "%d" in t else t
+            put(d, "main.c", text.replace("int from", "int from"))
+            # the header included is the one named by the latest definition: give every inc*.h a distinct object name
+            out.append(("hist\tinclude-macro\t%s" % "".join(seq), os.path.join(d, "main.c")))
+            n += 1
+    # (c) one long token of every class after n short tokens: lengths around the powers of two a buffered writer could use
+    lens = [100, 1023, 1024, 1025, 4094, 4095, 4096, 4097, 4098, 5000, 8191, 8192, 8193, 16384, 16385, 65536, 65537, 70000]
+    if tier == "quick":
+        lens = [100, 1024, 4095, 4096, 4097, 5000, 8192, 8193, 65537]
+    for ln in lens:
+        for before in (0, 1, 7, 300, 1500):
+            pre = "".join("int p%d;\n" % i for i in range(before))
+            toks = {"string": 'const char s[] = "%s";\n' % ("a" * (ln - 2)),
+                    "wide-string": 'const int w[] = L"%s";\n' % ("b" * (ln - 3)),
+                    "ident": "int %s = 3;\nint *q = &%s;\n" % ("i" * ln, "i" * ln),
+                    "number": "double d = 0.%s1;\n" % ("0" * (ln - 3)),
+                    "string-from-macro": '#define S "%s"\nconst char s[] = S;\nconst char t[] = S S;\n' % ("c" * (ln - 2)),
+                    "stringized": "#define STR(x) #x\nconst char s[] = STR(%s);\n" % ("d" * ln)}
+            for kind, t in toks.items():
+                d = os.path.join(gd, "fc%d" % n)
+                put(d, "main.c", pre + t + "int after_%d;\n" % n)
+                out.append(("hist\tlong-token\t%s/len=%d/after=%d" % (kind, ln, before), os.path.join(d, "main.c")))
+                n += 1
+    return out
+
+
 def run(ctx):
     tier = ctx.tier
     # ---------- (i) + (ii): token pairs ----------
@@ -289,6 +354,9 @@ def run(ctx):
         with open(p, "w") as f:
             f.write(src)
         jobs.append((ctx.chibicc, wd, name, p, [], gd))
+    hprogs = history_programs(ctx.mkdir("hist"), tier)
+    for name, p in hprogs:
+        jobs.append((ctx.chibicc, wd, name, p, [], os.path.dirname(p)))
     res = core.pmap(_roundtrip, jobs, chunksize=8)
     nrt = 0
     skipped = 0
@@ -301,15 +369,29 @@ def run(ctx):
         nrt += 1
         if status == "ok":
             continue
-        fam = "adj" if name.startswith("adj\t") else name.split("/")[0]
-        if fam == "adj":
+        fam = "adj" if name.startswith("adj\t") else "hist" if name.startswith("hist\t") else name.split("/")[0]
+        if fam == "hist":
+            _, hfam, desc = name.split("\t", 2)
+            sig = "C19|roundtrip|%s|%s|%s" % (hfam, desc.split("/")[0] if hfam == "long-token" else "history", status)
+        elif fam == "adj":
             _, b, u, form = name.split("\t", 3)
             sig = "C19|roundtrip|adj|%s|%s" % (form, status)
         else:
             sig = "C19|roundtrip|%s|%s" % (name, status)
         src = open(job[3], errors="replace").read()
         files = {"p.c": src} if fam == "adj" else {"name.txt": name + "\n"}
-        if fam == "adj":
+        if fam == "hist":
+            hd = os.path.dirname(job[3])
+            files = {}
+            for root, _, fns in os.walk(hd):
+                for fn in fns:
+                    files[os.path.relpath(os.path.join(root, fn), hd).replace("/", "__")] = open(os.path.join(root, fn), errors="replace").read()
+            rp = ("d=$(mktemp -d) && trap 'rm -rf $d' EXIT; for f in *; do case $f in replay.sh|info.json) ;; *) t=$(echo $f | sed 's|__|/|g'); mkdir -p $d/$(dirname $t); cp $f $d/$t;; esac; done; cd $d\n"
+                  "$CHIBICC -cc1 -E -cc1-input main.c main.c > i.c || exit 0\n$CHIBICC -cc1 -cc1-input main.c -cc1-output 1.s main.c || exit 0\n"
+                  "$CHIBICC -cc1 -cc1-input i.c -cc1-output 2.s i.c || exit 1\n"
+                  "grep -v '^ *\\.\\(loc\\|file\\)' 1.s > 1.t; grep -v '^ *\\.\\(loc\\|file\\)' 2.s > 2.t; cmp -s 1.t 2.t || exit 1\n"
+                  "$CHIBICC -cc1 -E -cc1-input i.c i.c > j.c; cmp -s i.c j.c || exit 1; exit 0")
+        elif fam == "adj":
             rp = ("$CHIBICC -cc1 -E -cc1-input p.c p.c > i.c || exit 0\n$CHIBICC -cc1 -cc1-input p.c -cc1-output 1.s p.c || exit 0\n"
                   "$CHIBICC -cc1 -cc1-input i.c -cc1-output 2.s i.c || exit 1\n"
                   "grep -v '^ *\\.\\(loc\\|file\\)' 1.s > 1.t; grep -v '^ *\\.\\(loc\\|file\\)' 2.s > 2.t; cmp -s 1.t 2.t || exit 1\n"
@@ -326,7 +408,10 @@ def run(ctx):
     distinct = len(set(c[0] for c in cases))
     ctx.cover(evaluations=judged + nrt, distinct_nontrivial=distinct + nrt, roundtrip_programs=nrt, roundtrip_skipped=skipped, roundtrip_skipped_programs=skipped_names[:20],
               rule="pair case = (adjacency construction, t1, t2) over a %d-token alphabet, all ordered pairs; judged by re-lexing the -E text; "
-                   "round-trip case = one program (tree sources, test/*.c, operator x unary-operator x adjacency-form programs) compiled directly and via its -E output" % len(ALPHA))
+                   "round-trip case = one program (tree sources, test/*.c, operator x unary-operator x adjacency-form programs, history programs: "
+                   "every sequence of <= 3-4 uses of __FILE__/__BASE_FILE__ in the primary file and two headers, every order of define / computed #include / "
+                   "text use / stringized use / redefinition of a string-valued macro, one long token of 6 classes x lengths around 1024..65537 after 0..1500 short tokens) "
+                   "compiled directly and via its -E output" % len(ALPHA), roundtrip_history_programs=len(hprogs))
     if judged < 1000 or nrt < 50:
         raise core.HarnessError("vacuous: judged=%d roundtrips=%d" % (judged, nrt))
     for c in (cases[5], cases[len(cases) // 2], cases[-1]):
